@@ -326,7 +326,47 @@ func pathStep(r *plan.Rng, h string, shared bool, bad bool) plan.Step {
 	return st
 }
 
+// pathSyntaxTexts: every prefix of every catalogue path, and single-character
+// edits of them (most are malformed): CreatePath must reject or accept, never
+// panic.
+var pathSyntaxTexts []string
+
+func init() {
+	seen := map[string]bool{}
+	add := func(s string) {
+		if !seen[s] {
+			seen[s] = true
+			pathSyntaxTexts = append(pathSyntaxTexts, s)
+		}
+	}
+	alpha := []string{"$", ".", "[", "]", "*", "'", "\"", "0", "a", " "}
+	for _, t := range append(append([]string{}, pathTexts...), badPathTexts...) {
+		rs := []rune(t)
+		for i := 0; i <= len(rs); i++ {
+			add(string(rs[:i]))
+		}
+		for i := 0; i < len(rs); i++ {
+			add(string(rs[:i]) + string(rs[i+1:])) // deletion
+			for _, a := range alpha {
+				add(string(rs[:i]) + a + string(rs[i:])) // insertion
+			}
+		}
+	}
+}
+
+func pathSyntaxSession(r *plan.Rng, id string, n int) plan.Session {
+	s := plan.Session{ID: id}
+	start := r.Intn(len(pathSyntaxTexts))
+	for k := 0; k < n; k++ {
+		s.Steps = append(s.Steps, plan.Step{Op: "path_new", H: fmt.Sprintf("x%d", k), S1: pathSyntaxTexts[(start+k)%len(pathSyntaxTexts)]})
+	}
+	return s
+}
+
 func randPathText(r *plan.Rng) string {
+	if r.Chance(1, 6) {
+		return pathSyntaxTexts[r.Intn(len(pathSyntaxTexts))]
+	}
 	switch r.Intn(10) {
 	case 0:
 		return badPathTexts[r.Intn(len(badPathTexts))]
